@@ -33,9 +33,11 @@ def digest (w : World) (oks : List Bool) : String :=
   String.join (w.accts.map (fun a => " | " ++ digestAcct a)) ++
   s!" | TS={w.totalStake} TD={w.totalDeleg} TB={w.totalBond}"
 
-/-- who may bond to whom in the icsim environment (actors 5,6 = bonders of P-Reps 0,1; actor 7 = P-Rep 0 itself) -/
+/-- who may bond to whom in the harness environment (bonder lists are parameters of the model):
+    actor 5 is in the bonder lists of P-Reps 0,1,2; actor 6 of P-Reps 1,0; actor 7 = P-Rep 0 itself -/
 def mayBond (i : Nat) (bs : Votes) : Bool :=
-  bs.all (fun b => (i == 5 && b.1 == 0) || (i == 6 && b.1 == 1) || (i == 7 && b.1 == 0))
+  bs.all (fun b => (i == 5 && (b.1 == 0 || b.1 == 1 || b.1 == 2)) || (i == 6 && (b.1 == 1 || b.1 == 0)) ||
+    (i == 7 && b.1 == 0))
 
 structure St where
   w : World := {}
